@@ -269,7 +269,7 @@ def renorm_protocol(ctx, bt, n, corr="report:renorm[C17]", fixed=None):
         if ctx.rng.random() < 0.1:
             vs.append(0.0)
         if item is not None:
-            vs = [item["renorm_v"]] if "renorm_v" in item else []
+            vs = [item["renorm_v"]] if ("renorm_v" in item and "renorm_dict" not in item) else []
         # ---- the normalising value as a Series on the backtest's dates
         series = []
         tol = float(bt.core.TOL)
@@ -310,6 +310,34 @@ def renorm_protocol(ctx, bt, n, corr="report:renorm[C17]", fixed=None):
                 ctx.count("renorm:series:rows-judged-against-index", judged)
             cases.append((rd, real))
             lines.append("report renorms %s %s %s %s" % (E.tF(par), E.tL(ser, lambda x: "N" if x != x else E.tF(x)), E.tL(values, E.tF), E.tL(flows, E.tF)))
+        # ---- a dict of normalising values, by BACKTEST name: two backtests of the same definition, one under its default name (the
+        # strategy's), one under a name of its own, each with its own value
+        if item is None and ctx.rng.random() < 0.5 or (item is not None and "renorm_dict" in item):
+            try:
+                s2_, data2_, add2_, kw2_ = program_parts(bt, spec)
+                b2 = bt.Backtest(s2_, data2_, name="fi_stress", integer_positions=spec["integer"], additional_data=add2_, progress_bar=False, **kw2_)
+                b2.run()
+                va, vb = (item["renorm_dict"] if item is not None else
+                          [float(ctx.rng.choice([1000.0, 1e6, 12345.678])), float(ctx.rng.choice([2000.0, 2.5e5, 777.0]))])
+                res = bt.backtest.RenormalizedFixedIncomeResult({b.name: va, "fi_stress": vb}, b, b2)
+                ctx.count("renorm:dict-by-backtest-name")
+                par = float(bt.core.PAR)
+                for bb, vv in ((b, va), (b2, vb)):
+                    st = bb.strategy
+                    vals = [float(x) for x in np.asarray(st.values.values, dtype=float)]
+                    fls = [float(x) for x in np.asarray(st.flows.values, dtype=float)]
+                    real = [float(x) for x in np.asarray(res.prices[bb.name].reindex(bb.dates).values, dtype=float)]
+                    rd = dict(spec, renorm_dict=[va, vb], renorm_col=bb.name)
+                    for t in range(1, len(real)):
+                        step = par * ((vals[t] - vals[t - 1]) - fls[t]) / vv
+                        if not abs((real[t] - real[t - 1]) - step) <= 1e-9 * max(1.0, abs(real[t]), abs(real[t - 1]), abs(step)):
+                            ctx.violation("C17/renorm-dict-value", "backtest %r renormalised with the dict {%r: %r, 'fi_stress': %r}: date#%d moves by %r, "
+                                          "its own value %r gives %r" % (bb.name, b.name, va, vb, t, real[t] - real[t - 1], vv, step), rd)
+                            break
+                    cases.append((dict(rd, renorm_v=vv), real))
+                    lines.append("report renorm %s %s %s %s" % (E.tF(par), E.tF(vv), E.tL(vals, E.tF), E.tL(fls, E.tF)))
+            except Exception as e:  # noqa
+                ctx.count("renorm:dict-case-raised:" + type(e).__name__)
         for v in vs:
             via = "constructor"
             try:
@@ -425,7 +453,7 @@ def search(ctx, bt):
 
 def replay(bt, data, ctx):
     case = data["case"]
-    if "renorm_v" in case or "renorm_series" in case:
+    if "renorm_v" in case or "renorm_series" in case or "renorm_dict" in case:
         return renorm_protocol(ctx, bt, 0, fixed=[case])
     if case.get("mode") == "program":
         return run_program(ctx, bt, case)
